@@ -460,6 +460,10 @@ func repoGarbageCollect(repo Repo, conf config.Config, index types.Index, locked
 					// else preserve only if subject remains
 					subjects[dig] = d.Copy()
 					keep = false
+					// as above, a subject that is only recorded as the child of another manifest remains as long as untagged manifests are kept
+					if _, err := index.GetDesc(dig.String()); err == nil && !*conf.Storage.GC.Untagged {
+						keep = true
+					}
 				}
 			}
 		}
